@@ -47,10 +47,19 @@ type peerIdentity struct {
 }
 
 func deserializePeer(s string) (id peerIdentity, complete bool, err error) {
-	parts := strings.Split(s, ":")
-	if len(parts) != 4 {
+	// The ip field may itself contain ':' (IPv6 addresses), so the peer id is
+	// delimited by the first separator and the port and complete bit by the
+	// last two.
+	first := strings.Index(s, ":")
+	last := strings.LastIndex(s, ":")
+	mid := -1
+	if last > first {
+		mid = strings.LastIndex(s[:last], ":")
+	}
+	if first < 0 || mid <= first {
 		return id, false, fmt.Errorf("invalid peer encoding: expected 'pid:ip:port:complete'")
 	}
+	parts := []string{s[:first], s[first+1 : mid], s[mid+1 : last], s[last+1:]}
 	peerID, err := core.NewPeerID(parts[0])
 	if err != nil {
 		return id, false, fmt.Errorf("parse peer id: %s", err)
